@@ -596,7 +596,7 @@ def setup():
     log(msg)
     if not ok:
         return 1
-    for cfg in ("asan",):
+    for cfg in ("asan", "o2"):
         exe, err = build_harness(cfg)
         if exe is None:
             log("harness build failed:\n" + (err or ""))
